@@ -84,6 +84,23 @@ def run_corpus(tag="memo"):
         except (TypeError, ValueError):
             mism.append("nested-%d: parser driver died (rc=%s)" % (d, rc))
     detail["reads_by_depth"] = reads
+    # ... also when the innermost level is malformed, so that every enclosing level fails too: a failed production
+    # must be remembered just like a successful one (unclosed / empty nests of depth 3, 5, 7)
+    for shape, mk in (("unclosed-parens", lambda d: "let a = " + "(" * d + "num;\n"), ("empty-parens", lambda d: "let a = " + "(" * d + ")" * d + ";\n"),
+                      ("unclosed-mixed", lambda d: "let a = " + "".join("([{<"[i % 2] for i in range(d)) + " 'p num;\n")):
+        rr = {}
+        for d in (3, 5, 7):
+            rc, out, t = run([drv], stdin=mk(d), timeout=120, mem_gb=6, extra_env={"PARSEDRV_MEMO_ONLY": "1"})
+            r = parse_out(out)
+            try:
+                rr[d] = int(r.get("memo", {}).get("reads"))
+            except (TypeError, ValueError):
+                mism.append("%s depth %d: parser driver died or timed out (rc=%s)" % (shape, d, rc))
+        detail["reads_" + shape] = rr
+        if len(rr) == 3:
+            i1, i2 = rr[5] - rr[3], rr[7] - rr[5]
+            if i2 > 2 * max(1, i1) + 50:
+                mism.append("token reads explode on malformed nested input (%s): %s" % (shape, rr))
     if len(reads) == 4:
         inc = [reads[16] - reads[8], (reads[32] - reads[16]) / 2.0, (reads[64] - reads[32]) / 4.0]
         if max(inc) > 1.5 * max(1, min(inc)):
@@ -159,14 +176,14 @@ def check():
             okm = len(pcalls) == 1 and pcalls[0][2][1] == ("sym", "s") and len(cc) == 1 and cc[0][2][1:3] == (("sym", "t"), ("sym", "s")) and \
                 any(t == pcalls[0][3] for t in ms.subterms(cc[0][2][3])) and p.ret == pcalls[0][3] and \
                 p.events.index(cc[0]) > p.events.index(pcalls[0])
-            structural("memoize (miss): runs the production at the same cursor, stores its result under (tag, cursor), returns it", okm)
+            structural("memoize (miss): runs the production at the same cursor, stores its result - success or failure - under (tag, cursor), returns it", okm)
         else:
             n_hit += 1
             L.expect_unsat("memoize: without running the production only on a hit", cond + [z3.Not(hit)], on_sat)
             okh = not cc and p.ret == ms.proj(ms.proj(lk[0][3], ("v", "Some"), E), ("f", 0), E)
             structural("memoize (hit): returns the stored result, stores nothing", okh)
-    if n_hit != 1 or n_miss != 1:
-        o.inconc("memoize: expected one hit and one miss path (%d/%d)" % (n_hit, n_miss))
+    if n_hit < 1 or n_miss < 1:
+        o.inconc("memoize: expected a hit path and a miss path (%d/%d)" % (n_hit, n_miss))
 
     # lookup / cache use the same key and honour no_cache
     SELF = ("deref", ("sym", "self"))
